@@ -273,7 +273,12 @@ class C01(Check):
         if index < len(eng):
             return {'engine': eng[index]}
         rng = st('content')
-        cls, rec = G.gen_content(rng)
+        if rng.random() < 0.012:
+            # a long stream, its length around one of the module's size
+            # limits (one giant chunk against pieces)
+            cls, rec = G.gen_big(rng, imgsim.size_knobs())
+        else:
+            cls, rec = G.gen_content(rng)
         data, info = F.build(rec)
         n = len(data)
         b = info['boundaries']
@@ -286,7 +291,18 @@ class C01(Check):
         for j, fam in enumerate(fams):
             mode = core.weighted(srng, [('bare', 4), ('witer', 4),
                                         ('wfile', 2)])
-            if fam == 'uniform512':
+            if fam == 'uniform512' and cls == 'big':
+                name, r = 'uniform(65536)', streams.rle(
+                    streams.uniform_sizes(n, 65536))
+            elif cls == 'big' and fam is None:
+                k = srng.choice(imgsim.size_knobs() + [1 << 16, 1 << 18])
+                if srng.random() < 0.5:
+                    name, r = 'head+rest', streams.rle(streams.cuts_to_sizes(
+                        [srng.choice((1, 64, 512, 4096, 65536))], n))
+                else:
+                    name, r = 'uniform(%d)' % k, streams.rle(
+                        streams.uniform_sizes(n, max(k, n // 200)))
+            elif fam == 'uniform512':
                 name, r = 'uniform(512)', streams.rle(
                     streams.uniform_sizes(n, 512))
             elif fam == 'boundary' and not b:
